@@ -7,14 +7,18 @@ import (
 	"context"
 	"crypto/sha256"
 	"encoding/hex"
+	"encoding/json"
 	"fmt"
 	"math/rand/v2"
 	"net/netip"
 	"net/url"
 	"os"
+	"os/exec"
 	"path/filepath"
 	"sort"
 	"strings"
+	"sync"
+	"sync/atomic"
 	"time"
 
 	"github.com/AdguardTeam/AdGuardDNS/internal/agd"
@@ -37,10 +41,11 @@ var txtSuffixes = []string{filter.GeneralTXTSuffix, filter.AdultBlockingTXTSuffi
 // matcher behind the production middleware stack.
 type env struct {
 	dir      string
-	strg     [3]*hashprefix.Storage
+	strg     [4]*hashprefix.Storage // 0..2 behind the filters, 3 driven directly
 	flt      [3]*hashprefix.Filter
 	paths    [3]string
-	listed   [3]map[string]int // the oracle's own idea of each list
+	listed   [4]map[string]int // the oracle's own idea of each list
+	mtrc     *countMetrics
 	msgs     *dnsmsg.Constructor
 	matcher  *hashprefix.Matcher
 	sufs     []string
@@ -48,11 +53,26 @@ type env struct {
 	st       *stack.Stack
 }
 
+// countMetrics records the rule count Filter.refresh reports, the only place
+// where the count returned by Storage.Reset surfaces.
+type countMetrics struct {
+	count map[string]int
+	errs  map[string]error
+}
+
+// SetFilterStatus implements the [filter.Metrics] interface for *countMetrics.
+func (m *countMetrics) SetFilterStatus(_ context.Context, id string, _ time.Time, n int, err error) {
+	m.count[id], m.errs[id] = n, err
+}
+
+// direct is the index of the storage that is not behind a filter.
+const direct = 3
+
 var filterIDs = [3]filter.ID{filter.IDSafeBrowsing, filter.IDAdultBlocking, filter.IDNewRegDomains}
 var replHosts = [3]string{"192.0.2.1", "repl.example", "2001:db8::1"}
 
 func newEnv(dir string, sufs []string, sufStore []int) (e *env) {
-	e = &env{dir: dir, sufs: sufs, sufStore: sufStore}
+	e = &env{dir: dir, sufs: sufs, sufStore: sufStore, mtrc: &countMetrics{count: map[string]int{}, errs: map[string]error{}}}
 	cloner := agdtest.NewCloner()
 	var err error
 	e.msgs, err = dnsmsg.NewConstructor(&dnsmsg.ConstructorConfig{
@@ -63,7 +83,10 @@ func newEnv(dir string, sufs []string, sufStore []int) (e *env) {
 		EDEEnabled:          true,
 	})
 	hlib.Must(err)
-	for i := range e.strg {
+	e.strg[direct], err = hashprefix.NewStorage("")
+	hlib.Must(err)
+	e.listed[direct] = map[string]int{}
+	for i := range e.flt {
 		e.strg[i], err = hashprefix.NewStorage("")
 		hlib.Must(err)
 		e.paths[i] = filepath.Join(dir, fmt.Sprintf("list%d.txt", i))
@@ -75,7 +98,7 @@ func newEnv(dir string, sufs []string, sufStore []int) (e *env) {
 			Hashes:          e.strg[i],
 			URL:             &url.URL{Scheme: "file", Path: e.paths[i]},
 			ErrColl:         &agdtest.ErrorCollector{OnCollect: func(context.Context, error) {}},
-			Metrics:         filter.EmptyMetrics{},
+			Metrics:         e.mtrc,
 			ID:              filterIDs[i],
 			CachePath:       e.paths[i] + ".cache",
 			ReplacementHost: replHosts[i],
@@ -465,9 +488,18 @@ func (c *runner) flag(f string) {
 // --- operations: each runs the real code, the property oracle, and records the
 // model line ---
 
+// opReset replaces list i: through Filter.Refresh for the storages behind the
+// filters, through Storage.Reset for the direct one.
 func (c *runner) opReset(i int, text string) {
-	hlib.Must(os.WriteFile(c.e.paths[i], []byte(text), 0o600))
-	err := c.e.flt[i].Refresh(c.ctx)
+	var err error
+	var got int
+	if i == direct {
+		got, err = c.e.strg[i].Reset(text)
+	} else {
+		hlib.Must(os.WriteFile(c.e.paths[i], []byte(text), 0o600))
+		err = c.e.flt[i].Refresh(c.ctx)
+		got = c.e.mtrc.count[string(filterIDs[i])]
+	}
 	real := "err"
 	set, tooLong := oracleListed(text)
 	if err == nil {
@@ -475,16 +507,44 @@ func (c *runner) opReset(i int, text string) {
 		for _, k := range set {
 			n += k
 		}
-		real = fmt.Sprintf("ok %d", n)
-		c.e.listed[i] = set
-		c.flag("reset.ok")
+		if got != n {
+			c.r.Violate("reset-count-wrong", fmt.Sprintf("Reset of list %d counted %d names, the text has %d", i, got, n), c.replayWith("reset", i, text))
+		}
 		if tooLong {
+			// Not part of the property; the model comparison reports it.
 			c.r.Count("reset.ok_but_oracle_too_long")
 		}
+		real = fmt.Sprintf("ok %d", got)
+		c.e.listed[i] = set
+		c.flag("reset.ok")
 	} else {
+		if !tooLong {
+			c.r.Violate("reset-failed", fmt.Sprintf("Reset of list %d failed: %v", i, err), c.replayWith("reset", i, text))
+		}
 		c.flag("reset.err")
 	}
 	c.add(fmt.Sprintf("reset %d %s", i, hx(text)), real, -1)
+}
+
+// opNew replaces the direct storage by NewStorage(text).
+func (c *runner) opNew(text string) {
+	st, err := hashprefix.NewStorage(text)
+	set, tooLong := oracleListed(text)
+	real := "ok"
+	if err != nil {
+		real = "err"
+		if !tooLong {
+			c.r.Violate("reset-failed", fmt.Sprintf("NewStorage failed: %v", err), c.replayWith("new", text))
+		}
+		st, err = hashprefix.NewStorage("")
+		hlib.Must(err)
+		set = map[string]int{}
+		c.flag("new.err")
+	} else {
+		c.flag("new.ok")
+	}
+	c.e.strg[direct], c.e.listed[direct] = st, set
+	c.add(fmt.Sprintf("new %d %s", direct, hx(text)), real, -1)
 }
 
 func (c *runner) opMatches(i int, host string) {
@@ -1014,6 +1074,9 @@ var suffixRules = []string{
 	"cloudfront.net", "githubusercontent.com",
 }
 
+// families are the names sharing a storage bucket, see bucketFamilies.
+var families []family
+
 var labelPool = []string{"a", "b", "www", "x", "cdn"}
 
 func genHost(rng *rand.Rand) string {
@@ -1139,6 +1202,10 @@ func fullHash(name string) string {
 // genPrefixStr: mostly valid, with a malformed stream.
 func genPrefixStr(rng *rand.Rand, names []string) string {
 	n := 1 + rng.IntN(3)
+	if rng.IntN(8) == 0 {
+		// Many pieces: a question name has room for about forty.
+		n = 4 + rng.IntN(37)
+	}
 	parts := make([]string, n)
 	for i := range parts {
 		var p string
@@ -1152,6 +1219,18 @@ func genPrefixStr(rng *rand.Rand, names []string) string {
 			p = fmt.Sprintf("%04x", rng.IntN(65536))
 		}
 		parts[i] = p
+	}
+	if rng.IntN(5) == 0 {
+		// Upper-case digits, also in the discarded tail of a legacy piece: still
+		// well-formed (question names arrive lower-cased, the API takes both).
+		i := rng.IntN(n)
+		b := []byte(parts[i])
+		for k := range b {
+			if rng.IntN(3) == 0 {
+				b[k] = strings.ToUpper(string(b[k]))[0]
+			}
+		}
+		parts[i] = string(b)
 	}
 	if rng.IntN(3) == 0 {
 		i := rng.IntN(n)
@@ -1192,6 +1271,18 @@ func listCampaign(c *runner, rng *rand.Rand, n int) {
 		hosts := make([]string, 3+rng.IntN(6))
 		for i := range hosts {
 			hosts[i] = genHost(rng)
+		}
+		if len(families) > 0 && rng.IntN(4) == 0 {
+			// Several names of one storage bucket among the others.
+			fam := families[rng.IntN(len(families))]
+			for k := 2 + rng.IntN(3); k > 0; k-- {
+				h := fam.names[rng.IntN(len(fam.names))]
+				if rng.IntN(2) == 0 {
+					h = labelPool[rng.IntN(len(labelPool))] + "." + h
+				}
+				hosts[rng.IntN(len(hosts))] = h
+			}
+			c.r.Count("list.bucket_family")
 		}
 		for round := 1 + rng.IntN(3); round > 0; round-- {
 			i := rng.IntN(3)
@@ -1286,6 +1377,18 @@ func txtCampaign(c *runner, rng *rand.Rand, n int) {
 			if validQName(host) {
 				c.opTXT(host, qt)
 			}
+		}
+		if rng.IntN(10) == 0 {
+			// Direct API only: more pieces than a question name can hold.
+			parts := make([]string, 60+rng.IntN(200))
+			for k := range parts {
+				parts[k] = fmt.Sprintf("%04x", rng.IntN(65536))
+				if names := allNames[c.e.sufStore[0]]; len(names) > 0 && rng.IntN(4) == 0 {
+					parts[k] = prefixOf(names[rng.IntN(len(names))])
+				}
+			}
+			c.opMBP(strings.Join(parts, ".") + c.e.sufs[0])
+			c.r.Count("mbp.many_pieces")
 		}
 		// Direct API only: empty prefix string, empty pieces.
 		for _, s := range []string{"", ".", "abcd.", ".abcd", "abcd..abcd"} {
@@ -1409,6 +1512,426 @@ func prefixCampaign(c *runner, rng *rand.Rand, n int, exhaustive bool) {
 	}
 }
 
+
+// --- names sharing a storage bucket ---
+
+// family is a set of host names whose SHA-256 digests start with the same two
+// bytes, that is, which Storage keeps in one bucket of its map.
+type family struct {
+	prefix string
+	names  []string
+}
+
+// bucketFamilies searches names of the form h<k>.<base> for groups with a
+// common hash prefix.  With 65536 buckets a list of a dozen names practically
+// never has two names in one bucket, so without this the code that walks a
+// bucket would only ever see buckets of one.
+func bucketFamilies(n, minSize int) (fams []family) {
+	basesF := []string{"example.com", "blogspot.com", "test.co.uk", "lan"}
+	by := map[string][]string{}
+	for k := 0; k < n; k++ {
+		name := fmt.Sprintf("h%d.%s", k, basesF[k%len(basesF)])
+		p := prefixOf(name)
+		by[p] = append(by[p], name)
+	}
+	for _, p := range hlib.SortedKeys(by) {
+		if len(by[p]) >= minSize {
+			fams = append(fams, family{prefix: p, names: by[p]})
+		}
+	}
+
+	return fams
+}
+
+// permutations of all non-empty subsets of {0..n-1}.
+func orderedSubsets(n int) (out [][]int) {
+	var rec func(cur []int, used int)
+	rec = func(cur []int, used int) {
+		if len(cur) > 0 {
+			out = append(out, append([]int(nil), cur...))
+		}
+		for i := 0; i < n; i++ {
+			if used&(1<<i) == 0 {
+				rec(append(cur, i), used|1<<i)
+			}
+		}
+	}
+	rec(nil, 0)
+
+	return out
+}
+
+// bucketCampaign: for each family, every ordered subset of four members as the
+// list (some with a duplicate, a decoy from another bucket in between), then
+// every member and a never-listed name of the same bucket through
+// Storage.Matches, the filter, Storage.Hashes and a TXT prefix query.
+func bucketCampaign(c *runner, rng *rand.Rand, fams []family) {
+	subsets := orderedSubsets(4)
+	for fi, fam := range fams {
+		c.add("psclear", "ok", -1)
+		c.psSet = map[string]bool{}
+		c.opMatcherCfg()
+		members := fam.names[:5] // the fifth is never listed
+		i := fi % 2              // storages 0 and 1 are the ones behind TXT suffixes
+		for si, sub := range subsets {
+			var lines []string
+			for _, k := range sub {
+				lines = append(lines, members[k])
+				switch rng.IntN(6) {
+				case 0:
+					lines = append(lines, members[k])
+				case 1:
+					lines = append(lines, genHost(rng))
+				}
+			}
+			c.opReset(i, strings.Join(lines, "\n")+"\n")
+			for _, m := range members {
+				c.opMatches(i, m)
+			}
+			if si%4 == 0 || len(sub) == 4 {
+				for _, m := range members {
+					c.opFilter(i, "www."+m, dns.TypeA)
+				}
+			}
+			c.opHashes(i, []string{fam.prefix})
+			c.flag(fmt.Sprintf("bucket.listed=%d", len(sub)))
+			if si%3 == 0 {
+				for k, sfx := range c.e.sufs {
+					if c.e.sufStore[k] == i {
+						c.opMBP(fam.prefix + sfx)
+						c.opTXT(fam.prefix+sfx, dns.TypeTXT)
+					}
+				}
+			}
+		}
+		c.finish("bucket")
+	}
+	c.r.Count("bucket.exhaustive_done")
+}
+
+// --- list texts as byte strings ---
+
+// lineProbes returns the strings worth looking up after a reset with text:
+// every line read in several plausible but different ways.
+func lineProbes(text string) (probes []string) {
+	seen := map[string]bool{}
+	add := func(s string) {
+		if !seen[s] && len(s) < 200 {
+			seen[s] = true
+			probes = append(probes, s)
+		}
+	}
+	for _, sep := range []string{"\n", "\r", "\r\n"} {
+		for _, l := range strings.Split(text, sep) {
+			add(l)
+			add(strings.TrimSuffix(l, "\r"))
+			add(strings.TrimRight(l, "\r"))
+			add(strings.TrimSpace(l))
+			add(strings.TrimLeft(l, "#!; \t"))
+			add(strings.TrimPrefix(l, "\xef\xbb\xbf"))
+			add(strings.ToLower(l))
+			add(strings.TrimSuffix(l, "."))
+			if j := strings.IndexAny(l, "#!; \t"); j >= 0 {
+				add(l[:j])
+			}
+		}
+	}
+	for _, l := range strings.FieldsFunc(text, func(r rune) bool { return r == '\n' || r == '\r' || r == '\v' || r == '\f' || r == 0x85 || r == 0x2028 }) {
+		add(l)
+	}
+	sort.Strings(probes)
+
+	return probes
+}
+
+// textCase resets the direct storage with text (through NewStorage now and
+// then) and checks Matches for every probe and Hashes over the probes' buckets.
+func (c *runner) textCase(text string, viaNew bool) {
+	if viaNew {
+		c.opNew(text)
+	} else {
+		c.opReset(direct, text)
+	}
+	probes := lineProbes(text)
+	prefSeen := map[string]bool{}
+	var prefs []string
+	for _, p := range probes {
+		c.opMatches(direct, p)
+		if pf := prefixOf(p); !prefSeen[pf] && len(prefs) < 12 {
+			prefSeen[pf] = true
+			prefs = append(prefs, pf)
+		}
+	}
+	for n := range c.e.listed[direct] {
+		if pf := prefixOf(n); !prefSeen[pf] && len(prefs) < 24 {
+			prefSeen[pf] = true
+			prefs = append(prefs, pf)
+		}
+	}
+	sort.Strings(prefs)
+	if len(prefs) > 0 {
+		c.opHashes(direct, prefs)
+	}
+}
+
+var lineHeads = []string{"", "", "", "#", "!", ";", " ", "\t", "//", "-", "*.", "# ", " #", "\x00", "\xef\xbb\xbf", "\xc2\xa0", "\r", "||", "@@"}
+var lineTails = []string{"", "", "", " ", "\t", "\r", "\r\r", " \r", "\r ", "#x", " # c", "\x00", ".", "^", "\xe2\x80\xa8b"}
+var lineSeps = []string{"\n", "\n", "\n", "\r\n", "\r\n", "\n\n", "\r", "\n\r", "\r\r\n", "\v", "\f", "\xc2\x85", "\xe2\x80\xa8"}
+
+// genText builds a list text byte by byte interesting: unusual first and last
+// characters of lines, unusual separators.
+func genText(rng *rand.Rand) string {
+	var b strings.Builder
+	for k := 1 + rng.IntN(6); k > 0; k-- {
+		b.WriteString(lineHeads[rng.IntN(len(lineHeads))])
+		if rng.IntN(8) > 0 {
+			h := genHost(rng)
+			if rng.IntN(8) == 0 && h != "" {
+				h = strings.ToUpper(h[:1]) + h[1:]
+			}
+			b.WriteString(h)
+		}
+		b.WriteString(lineTails[rng.IntN(len(lineTails))])
+		if k > 1 || rng.IntN(2) == 0 {
+			b.WriteString(lineSeps[rng.IntN(len(lineSeps))])
+		}
+	}
+
+	return b.String()
+}
+
+// textCampaign: random texts, then every text up to maxLen over a small
+// alphabet of the bytes that matter to a line reader.
+func textCampaign(c *runner, rng *rand.Rand, n, maxLen int) {
+	for k := 0; k < n; k++ {
+		c.textCase(genText(rng), rng.IntN(4) == 0)
+		if len(c.steps) >= 3000 {
+			c.finish("text")
+		}
+	}
+	c.finish("text")
+	alpha := []byte("a#\n\r !")
+	var rec func(s []byte)
+	rec = func(s []byte) {
+		c.textCase(string(s), len(s)%3 == 1)
+		if len(c.steps) >= 4000 {
+			c.finish("text")
+		}
+		if len(s) == maxLen {
+			return
+		}
+		for _, ch := range alpha {
+			rec(append(s, ch))
+		}
+	}
+	rec(nil)
+	c.finish("text")
+	c.r.Count(fmt.Sprintf("text.exhaustive_len<=%d_done", maxLen))
+}
+
+
+// --- resets while lookups are running ---
+
+// concResult is what the child process of concurrencyCampaign reports.
+type concResult struct {
+	Violations []struct{ Sig, What string } `json:"violations"`
+	Reads      int                          `json:"reads"`
+	Resets     int                          `json:"resets"`
+}
+
+// concTexts builds two list texts around one bucket family: names in both,
+// names only in A, names only in B; plus names in neither.
+func concTexts(seed uint64) (textA, textB string, both, onlyA, onlyB, neither []string, prefix string) {
+	rng := rand.New(rand.NewPCG(seed, 0xc11))
+	fams := bucketFamilies(400000, 8)
+	fam := fams[rng.IntN(len(fams))]
+	prefix = fam.prefix
+	cp := func(l []string) []string { return append([]string(nil), l...) }
+	both, onlyA, onlyB, neither = cp(fam.names[0:2]), cp(fam.names[2:4]), cp(fam.names[4:6]), cp(fam.names[6:8])
+	var a, b []string
+	for k := 0; k < 300; k++ {
+		n := fmt.Sprintf("c%d.example.net", k)
+		switch k % 4 {
+		case 0:
+			a, b, both = append(a, n), append(b, n), append(both, n)
+		case 1:
+			a, onlyA = append(a, n), append(onlyA, n)
+		case 2:
+			b, onlyB = append(b, n), append(onlyB, n)
+		default:
+			neither = append(neither, n)
+		}
+	}
+	a = append(a, fam.names[0:4]...)
+	b = append(b, fam.names[0:2]...)
+	b = append(b, fam.names[4:6]...)
+	rng.Shuffle(len(a), func(i, j int) { a[i], a[j] = a[j], a[i] })
+	rng.Shuffle(len(b), func(i, j int) { b[i], b[j] = b[j], b[i] })
+
+	return strings.Join(a, "\n") + "\n", strings.Join(b, "\n") + "\n", both, onlyA, onlyB, neither, prefix
+}
+
+// concChild runs in a process of its own (a data race on the storage map is a
+// fatal error of the Go runtime, not a panic): one goroutine refreshes a filter
+// between list A and list B, the others look names up.  Whatever the
+// interleaving, a name in both lists is listed at every moment, a name in
+// neither never, and Hashes must be the answer for A or the answer for B.  Only
+// observed inconsistencies are reported, so the verdict does not depend on
+// timing; how often lookups and resets actually overlap does.
+func concChild() {
+	var seed uint64
+	rounds := 400
+	fmt.Sscan(os.Getenv("VERIF_C11_CHILD"), &seed, &rounds)
+	textA, textB, both, onlyA, onlyB, neither, prefix := concTexts(seed)
+	dir, err := os.MkdirTemp("", "agdverif-c11c-")
+	hlib.Must(err)
+	defer func() { _ = os.RemoveAll(dir) }()
+	e := newEnv(dir, txtSuffixes, []int{0, 1})
+	ctx := context.Background()
+	res := &concResult{}
+	var mu sync.Mutex
+	violate := func(sig, what string) {
+		mu.Lock()
+		defer mu.Unlock()
+		if len(res.Violations) < 5 {
+			res.Violations = append(res.Violations, struct{ Sig, What string }{sig, what})
+		}
+	}
+	setA, _ := oracleListed(textA)
+	setB, _ := oracleListed(textB)
+	var pref hashprefix.Prefix
+	_, err = hex.Decode(pref[:], []byte(prefix))
+	hlib.Must(err)
+	wantA := oracleHashes(setA, map[string]bool{prefix: true})
+	wantB := oracleHashes(setB, map[string]bool{prefix: true})
+	hlib.Must(os.WriteFile(e.paths[0], []byte(textA), 0o600))
+	hlib.Must(e.flt[0].Refresh(ctx))
+
+	var done atomic.Bool
+	var reads atomic.Int64
+	var wg sync.WaitGroup
+	filterOne := func(host string) bool {
+		req := &dns.Msg{}
+		req.SetQuestion(dns.Fqdn(host), dns.TypeA)
+		r, ferr := e.flt[0].FilterRequest(ctx, &filter.Request{
+			DNS: req, Messages: e.msgs, Host: host, QType: dns.TypeA, QClass: dns.ClassINET,
+			RemoteIP: netip.MustParseAddr("192.0.2.7"),
+		})
+		hlib.Must(ferr)
+
+		return r != nil
+	}
+	for g := 0; g < 3; g++ {
+		wg.Add(1)
+		go func(g int) {
+			defer wg.Done()
+			for k := 0; !done.Load(); k++ {
+				n := both[(k+g)%len(both)]
+				if !e.strg[0].Matches(n) {
+					violate("listed-name-unlisted-during-reset", fmt.Sprintf("Storage.Matches(%q) = false while the list was being replaced by another list that also has it", n))
+				}
+				z := neither[(k+g)%len(neither)]
+				if e.strg[0].Matches(z) {
+					violate("unlisted-name-listed-during-reset", fmt.Sprintf("Storage.Matches(%q) = true, the name is in neither list", z))
+				}
+				if k%8 == g {
+					got := e.strg[0].Hashes([]hashprefix.Prefix{pref})
+					if !sameSet(got, wantA) && !sameSet(got, wantB) {
+						violate("hashes-of-neither-list-during-reset", fmt.Sprintf("Storage.Hashes(%s) = %v is the answer neither for the old nor for the new list", prefix, got))
+					}
+				}
+				if k%4 == 0 {
+					h := "www." + both[(k/4+g)%len(both)]
+					if !filterOne(h) {
+						violate("listed-name-unlisted-during-reset", fmt.Sprintf("FilterRequest(%q) not filtered while the list was being replaced by another list that also has its parent", h))
+					}
+				}
+				if k%4 == 1 {
+					// Names in one list only: any answer is right while the
+					// lists alternate, but none may outlive its list (below).
+					_ = filterOne("www." + onlyA[(k/4+g)%len(onlyA)])
+					_ = filterOne("www." + onlyB[(k/4+g)%len(onlyB)])
+				}
+				reads.Add(1)
+			}
+		}(g)
+	}
+	for k := 0; k < rounds; k++ {
+		text := textB
+		if k%2 == 1 {
+			text = textA
+		}
+		hlib.Must(os.WriteFile(e.paths[0], []byte(text), 0o600))
+		hlib.Must(e.flt[0].Refresh(ctx))
+		res.Resets++
+		// This goroutine is the only one that refreshes: until its next
+		// refresh the list is the one just installed, whatever the others do.
+		in, out := onlyB, onlyA
+		if k%2 == 1 {
+			in, out = onlyA, onlyB
+		}
+		for j := 0; j < 6; j++ {
+			if n := out[(k+j)%len(out)]; filterOne("www." + n) {
+				violate("name-of-replaced-list-still-listed", fmt.Sprintf("www.%s is treated as listed after a refresh with a list that does not have %s has returned", n, n))
+			}
+			if n := in[(k+j)%len(in)]; !filterOne("www." + n) {
+				violate("name-of-current-list-not-listed", fmt.Sprintf("www.%s is not treated as listed after a refresh with a list that has %s has returned", n, n))
+			}
+		}
+	}
+	// The last refresh installed list A (rounds is even).
+	done.Store(true)
+	wg.Wait()
+	for _, n := range onlyB {
+		if e.strg[0].Matches(n) || filterOne("www."+n) {
+			violate("name-of-replaced-list-still-listed", fmt.Sprintf("%q is only in the list that was replaced, and is still treated as listed after the resets have finished", n))
+		}
+	}
+	for _, n := range onlyA {
+		if !e.strg[0].Matches(n) || !filterOne("www."+n) {
+			violate("name-of-current-list-not-listed", fmt.Sprintf("%q is in the list installed last, and is not treated as listed after the resets have finished", n))
+		}
+	}
+	res.Reads = int(reads.Load())
+	out, err := json.Marshal(res)
+	hlib.Must(err)
+	fmt.Println("RESULT " + string(out))
+}
+
+// concurrencyCampaign runs concChild in processes of their own.
+func concurrencyCampaign(c *runner, rng *rand.Rand, procs, rounds int) {
+	for p := 0; p < procs; p++ {
+		seed := rng.Uint64()
+		cmd := exec.Command(os.Args[0])
+		cmd.Env = append(os.Environ(), fmt.Sprintf("VERIF_C11_CHILD=%d %d", seed, rounds))
+		out, err := cmd.CombinedOutput()
+		replay := map[string]any{"op": "concurrent", "child_env": fmt.Sprintf("VERIF_C11_CHILD=%d %d", seed, rounds),
+			"what": "one goroutine alternates Filter.Refresh between two lists (concTexts(seed)), three look names up"}
+		var res concResult
+		found := false
+		for _, l := range strings.Split(string(out), "\n") {
+			if strings.HasPrefix(l, "RESULT ") && json.Unmarshal([]byte(l[7:]), &res) == nil {
+				found = true
+			}
+		}
+		if !found {
+			tail := string(out)
+			if len(tail) > 600 {
+				tail = tail[:600]
+			}
+			c.r.Violate("storage-crashed-under-concurrent-reset", fmt.Sprintf("lookups concurrent with resets killed the process (%v): %s", err, tail), replay)
+
+			continue
+		}
+		for _, v := range res.Violations {
+			c.r.Violate(v.Sig, v.What, replay)
+		}
+		c.r.Distribution["conc.lookups_during_resets"] += res.Reads
+		c.r.Distribution["conc.resets"] += res.Resets
+		c.r.Case(fmt.Sprintf("concurrent %d %d", seed, rounds), res.Reads > rounds)
+	}
+}
+
 // tooLongCase: the scanner limit; a failed reset must leave the old list in
 // force.
 func tooLongCase(c *runner) {
@@ -1430,6 +1953,11 @@ func tooLongCase(c *runner) {
 }
 
 func main() {
+	if os.Getenv("VERIF_C11_CHILD") != "" {
+		concChild()
+
+		return
+	}
 	o := hlib.ParseFlags()
 	r := hlib.NewResult("C11", o)
 	r.Rule = "list: random list texts (comments, blanks, CRLF, duplicates, padded names) reset through Filter.Refresh, then " +
@@ -1463,9 +1991,26 @@ func main() {
 		r.Notes = append(r.Notes, "VERIF_C11_RANDOM_ONLY set: exhaustive grids skipped")
 	}
 	tooLongCase(c)
+	nFam, nText, textLen := 8, 600, 4
+	if o.Thorough() {
+		nFam, nText, textLen = 64, 8000, 6
+	}
+	families = bucketFamilies(400000, 5)
+	if len(families) < nFam {
+		r.Disagree("coverage-lost:bucket-families", fmt.Sprintf("only %d families of five names in one bucket found", len(families)), nil)
+		nFam = len(families)
+	}
+	bucketCampaign(c, o.Rand("bucket"), families[:nFam])
+	textCampaign(c, o.Rand("text"), nText, textLen)
 	listCampaign(c, o.Rand("list"), nList)
 	txtCampaign(c, o.Rand("txt"), nTxt)
 	prefixCampaign(c, o.Rand("prefixes"), nPref, o.Thorough())
+
+	nProc, nRounds := 2, 400
+	if o.Thorough() {
+		nProc, nRounds = 12, 2000
+	}
+	concurrencyCampaign(c, o.Rand("conc"), nProc, nRounds)
 
 	// A matcher with a single, different suffix and the third storage.
 	e2 := newEnv(dir, []string{".hp.example"}, []int{2})
